@@ -82,7 +82,7 @@ def add_jobs(entry, inputs, buf=0, stream=0, verbose=True, ws=True, nl=True, tag
         entry.jobs.append(('%s:%s%d' % (entry.gid, tag, len(entry.jobs)), buf, stream, int(verbose), int(ws), int(nl), list(b), ctx))
 
 
-def run_harness(entries, workname):
+def run_harness(entries, workname, env=None):
     """Builds what is needed, runs every entry's jobs through the real library, fills dump/diag/traces."""
     work = vlib.scratch(workname)
     bins = host_bins()
@@ -114,9 +114,12 @@ def run_harness(entries, workname):
         _write_jobs(base + '.jobs', [e])
         runs.append(([gbins['gen_' + e.gid.replace('@', '_')], base + '.jobs', base + '.out'], base + '.out', [e]))
 
+    henv = dict(os.environ)
+    henv.update(env or {})
+
     def go(cmd):
         def f():
-            r = subprocess.run(cmd, capture_output=True, text=True, timeout=1800)
+            r = subprocess.run(cmd, capture_output=True, text=True, timeout=1800, env=henv)
             return r
         return f
     results = vlib.run_parallel([go(cmd) for cmd, _, _ in runs])
